@@ -14,7 +14,11 @@ var TypedDescNames = []string{"AC3", "AVCVideo", "Component", "Content", "DataSt
 	"PrivateDataSpecifier", "Registration", "Service", "ShortEvent", "StreamIdentifier", "Subtitling", "Teletext", "VBIData", "VBITeletext"}
 
 func lang(r *core.PRNG) []byte {
-	return []byte{byte('a' + r.Intn(26)), byte('a' + r.Intn(26)), byte('a' + r.Intn(26))}
+	l := []byte{byte('a' + r.Intn(26)), byte('a' + r.Intn(26)), byte('a' + r.Intn(26))}
+	if r.Chance(1, 6) {
+		l = l[:2]
+	}
+	return l
 }
 
 // TypedDesc builds a conformant value of the named typed descriptor: n is the number of items
